@@ -211,189 +211,618 @@ def o_iso(kind, s, engine):
         return None
 
 
-# --------------------------------------------------------------------------- case generation
-def ann_src(engine, kind, cls, tzname, patterns, container):
-    """annotation source text"""
-    base = {'date': 'date', 'time': 'time', 'datetime': 'datetime'}[kind]
-    tname = cls or base
-    plist = ', '.join(repr(p) for p in patterns)
-    if engine == 'v0':
-        if container is None and cls is None:
-            return '%sPattern[%s]' % ({'date': 'Date', 'time': 'Time', 'datetime': 'DateTime'}[kind], plist)
-        inner = {'list': 'List[%s]', 'dict': 'Dict[str, %s]', None: '%s', 'opt': 'Optional[%s]'}[container] % tname
-        return 'Annotated[%s, Pattern(%s)]' % (inner, plist)
-    pref = '' if tzname is None else ('UTC' if tzname == 'UTC!' else 'Aware')
-    tzarg = '' if pref != 'Aware' else repr(tzname) + ', '
-    if container is None and cls is None:
-        return '%s%sPattern[%s%s]' % (pref, {'date': 'Date', 'time': 'Time', 'datetime': 'DateTime'}[kind], tzarg, plist)
-    inner = {'list': 'List[%s]', 'dict': 'Dict[str, %s]', None: '%s', 'opt': 'Optional[%s]'}[container] % tname
-    return 'Annotated[%s, %sPattern[%s%s]]' % (inner, pref, tzarg, plist)
-
-
+# --------------------------------------------------------------------------- positions (type trees)
+# A field's type is a tree:
+#   ['leaf', kind, cls] | ['int'] | ['list', T] | ['dict', T] | ['dictk', leaf, T] | ['tuple', [T, ...]] | ['tuplev', T]
+#   | ['opt', T] | ['union', leaf, fillers] | ['nt', name, [[field, T], ...]] | ['td', name, total, [[key, T], ...]]
+#   | ['dc', name, T, inner_style]          (nested dataclass `name` with one patterned field g: T)
+# and a pattern placement STYLE:
+#   'ann'    Annotated[<tree>, Pattern(...)]            the pattern applies to every date/time leaf of the tree
+#   'shared' Annotated[<tree>, P]  with a module-level  P = Pattern(...)  used by several fields of the class
+#   'sub'    subscript style at every leaf              List[DatePattern['...']]
+#   'leafann' Annotated at every leaf (v1 only)         Dict[str, Annotated[MyDate, Pattern['...']]]
+#   'dc'     the pattern lives inside a nested dataclass
+KINDNAME = {'date': 'Date', 'time': 'Time', 'datetime': 'DateTime'}
+# NamedTuple / TypedDict classes shared by the fields of a class (several fields reach the same helper type)
+COMMON_SRC = ''.join('class CNT_%s(NamedTuple):\n    a: %s\n    n: int\n\n\nclass CTD_%s(TypedDict):\n    at: %s\n    n: int\n\n\n' % (k, k, k, k)
+                     for k in ('date', 'time', 'datetime'))
 JUNK = ['zzz', 'not a date', '12/34/5678', '99:99', '2022-13-45', '25-61', 'T', '+', '--', 'Jan', '12 PM', '0', ' ']
-
-
-def gen_field(r, engine):
-    kind = r.choice(['date', 'time', 'datetime'])
-    cls = SUB[kind] if r.random() < 0.3 else None
-    tzname = None
-    if engine == 'v1' and kind != 'date' and r.random() < 0.45:
-        tzname = 'UTC!' if r.random() < 0.4 else r.choice(ZONES)
-    container = r.choice([None, None, None, None, 'list', 'dict']) if True else None
-    npat = 1 if engine == 'v0' else r.choice([1, 1, 2, 3])
-    force = None
-    if kind == 'time':
-        force = r.choice([True, False, None])
-    pats, infos = [], []
-    want_tz = kind != 'date' and r.random() < 0.3
-    overlap = False
-    for _ in range(npat):
-        for _try in range(20):
-            p, info = gen_pattern(r, kind, want_tz=want_tz, force_dash=force)
-            if p not in pats:
-                break
-        pats.append(p)
-        infos.append(info)
-        if len(pats) < npat and r.random() < 0.5:
-            # an overlapping pattern: same text with two directives swapped, so that one string can match
-            # both (exercises "first matching pattern in listed order")
-            q = swap_variant(p)
-            if q is not None and q not in pats:
-                pats.append(q)
-                infos.append(set(info))
-                overlap = True
-        if len(pats) >= npat:
-            break
-    f = {'engine': engine, 'kind': kind, 'cls': cls, 'tz': tzname, 'patterns': pats, 'infos': [sorted(i) for i in infos],
-         'container': container}
-    f['ann'] = ann_src(engine, kind, cls, tzname, pats, container)
-    # inputs (strings), each with its purpose
-    items = []
-    for j, (p, info) in enumerate(zip(pats, infos)):
-        v = gen_value(r, info, with_tz='%z' in info)
-        if overlap:          # components small enough to be read either way
-            v = v.replace(day=min(v.day, 12), minute=v.minute % 24, second=v.second % 24)
-        items.append({'why': 'fmt', 'j': j, 'v': v.isoformat(), 's': v.strftime(p)})
-    # ISO form of a value of the target kind (declared tz for Aware/UTC; naive or fixed offset otherwise)
-    v = gen_value(r, set(), with_tz=(tzname is None and kind != 'date' and r.random() < 0.3))
-    tzo = zoneinfo.ZoneInfo('UTC' if tzname == 'UTC!' else tzname) if tzname else None
-    tv = v.date() if kind == 'date' else (v.timetz() if kind == 'time' else v)
-    if tzo is not None:
-        tv = tv.replace(tzinfo=tzo)
-    items.append({'why': 'iso', 's': tv.isoformat(), 'v': tv.isoformat()})
-    for _ in range(2):
-        items.append({'why': 'junk', 's': r.choice(JUNK)})
-    f['items'] = items
-    return f
 
 
 def tz_of(f):
     return None if f['tz'] is None else ('UTC' if f['tz'] == 'UTC!' else f['tz'])
 
 
-def inputs_of(f):
-    """what is sent to the runner for the field: scalars, or one container per scalar + one mixed container"""
-    ss = [it['s'] for it in f['items']]
-    if f['container'] is None:
-        return ss
-    good = [it['s'] for it in f['items'] if it['why'] != 'junk']
-    if f['container'] == 'list':
-        return [[s] for s in ss] + [good]
-    return [{'k': s} for s in ss] + [{('k%d' % i): s for i, s in enumerate(good)}]
+def pat_expr(f):
+    """source text of the pattern object"""
+    plist = ', '.join(repr(p) for p in f['patterns'])
+    if f['engine'] == 'v0':
+        return 'Pattern(%s)' % plist
+    pref = '' if f['tz'] is None else ('UTC' if f['tz'] == 'UTC!' else 'Aware')
+    tzarg = '' if pref != 'Aware' else repr(f['tz']) + ', '
+    return '%sPattern[%s%s]' % (pref, tzarg, plist)
+
+
+def leaf_src(f, leaf, style):
+    kind, cls = leaf[1], leaf[2]
+    plain = cls or kind
+    if style in ('ann', 'shared', 'plain'):
+        return plain
+    if style == 'leafann':
+        return 'Annotated[%s, %s]' % (plain, pat_expr(f))
+    # subscript style: the stdlib classes only
+    plist = ', '.join(repr(p) for p in f['patterns'])
+    if f['engine'] == 'v0':
+        return '%sPattern[%s]' % (KINDNAME[kind], plist)
+    pref = '' if f['tz'] is None else ('UTC' if f['tz'] == 'UTC!' else 'Aware')
+    tzarg = '' if pref != 'Aware' else repr(f['tz']) + ', '
+    return '%s%sPattern[%s%s]' % (pref, KINDNAME[kind], tzarg, plist)
+
+
+FILLER_SRC = {'int': 'int', 'none': 'None', 'listint': 'List[int]', 'dictint': 'Dict[str, int]'}
+
+
+def tree_src(f, t, style):
+    k = t[0]
+    if k == 'leaf':
+        return leaf_src(f, t, style)
+    if k == 'int':
+        return 'int'
+    if k == 'list':
+        return 'List[%s]' % tree_src(f, t[1], style)
+    if k == 'dict':
+        return 'Dict[str, %s]' % tree_src(f, t[1], style)
+    if k == 'dictk':
+        return 'Dict[%s, %s]' % (tree_src(f, t[1], style), tree_src(f, t[2], style))
+    if k == 'tuple':
+        return 'Tuple[%s]' % ', '.join(tree_src(f, x, style) for x in t[1])
+    if k == 'tuplev':
+        return 'Tuple[%s, ...]' % tree_src(f, t[1], style)
+    if k == 'opt':
+        return 'Optional[%s]' % tree_src(f, t[1], style)
+    if k == 'union':
+        return 'Union[%s]' % ', '.join([tree_src(f, t[1], style)] + [FILLER_SRC[x] for x in t[2]])
+    if k in ('nt', 'td', 'dc'):
+        return t[1]
+    raise ValueError(t)
+
+
+def header_src(f, t, style, out):
+    """class definitions the tree needs (NamedTuple / TypedDict / nested dataclass), innermost first"""
+    k = t[0]
+    if k in ('list', 'dict', 'tuplev', 'opt'):
+        header_src(f, t[1], style, out)
+    elif k == 'dictk':
+        header_src(f, t[2], style, out)
+    elif k == 'tuple':
+        for x in t[1]:
+            header_src(f, x, style, out)
+    elif k in ('nt', 'td') and t[1].startswith('C'):
+        pass
+    elif k == 'nt':
+        for _, x in t[2]:
+            header_src(f, x, style, out)
+        out.append('class %s(NamedTuple):\n%s\n' % (t[1], '\n'.join('    %s: %s' % (n, tree_src(f, x, style)) for n, x in t[2])))
+    elif k == 'td':
+        for _, x in t[3]:
+            header_src(f, x, style, out)
+        out.append('class %s(TypedDict%s):\n%s\n' % (t[1], '' if t[2] else ', total=False',
+                                                     '\n'.join('    %s: %s' % (n, tree_src(f, x, style)) for n, x in t[3])))
+    elif k == 'dc':
+        inner_style = t[3]
+        header_src(f, t[2], inner_style, out)
+        body = tree_src(f, t[2], inner_style)
+        if inner_style == 'ann':
+            body = 'Annotated[%s, %s]' % (body, pat_expr(f))
+        out.append('@dataclass\nclass %s:\n    g: %s\n' % (t[1], body) +
+                   ('\nLoadMeta(v1=True).bind_to(%s)\n' % t[1] if f['engine'] == 'v1' else ''))
+
+
+def field_ann(f):
+    style, t = f['style'], f['tree']
+    if style == 'ann':
+        return 'Annotated[%s, %s]' % (tree_src(f, t, 'ann'), pat_expr(f))
+    if style == 'shared':
+        return 'Annotated[%s, %s]' % (tree_src(f, t, 'shared'), f['pvar'])
+    if style == 'dc':
+        return tree_src(f, t, 'plain')
+    return tree_src(f, t, style)
+
+
+def leaves_of(t, acc=None):
+    acc = [] if acc is None else acc
+    k = t[0]
+    if k == 'leaf':
+        acc.append(t)
+    elif k in ('list', 'dict', 'tuplev', 'opt', 'union'):
+        leaves_of(t[1], acc)
+    elif k == 'dictk':
+        leaves_of(t[1], acc); leaves_of(t[2], acc)
+    elif k == 'tuple':
+        for x in t[1]:
+            leaves_of(x, acc)
+    elif k == 'nt':
+        for _, x in t[2]:
+            leaves_of(x, acc)
+    elif k == 'td':
+        for _, x in t[3]:
+            leaves_of(x, acc)
+    elif k == 'dc':
+        leaves_of(t[2], acc)
+    return acc
+
+
+def gen_tree(r, f, style, kinds, depth, counter, top=True):
+    def leaf():
+        k = r.choice(kinds)
+        return ['leaf', k, SUB[k] if (style != 'sub' and r.random() < 0.3) else None]
+    if depth >= 3 or r.random() < (0.3 if top else 0.4):
+        return leaf()
+    opts = ['list', 'list', 'dict', 'tuplev', 'tuple', 'opt', 'dictk']
+    if f['engine'] == 'v1':
+        opts += ['union', 'union']
+    if style in ('ann', 'shared'):
+        opts += ['nt', 'td', 'nt', 'td']
+    k = r.choice(opts)
+    sub = lambda: gen_tree(r, f, style, kinds, depth + 1, counter, top=False)
+    if k in ('list', 'dict', 'tuplev'):
+        return [k, sub()]
+    if k == 'opt':
+        x = sub()
+        return x if x[0] in ('opt', 'union') else ['opt', x]
+    if k == 'dictk':
+        return ['dictk', leaf(), sub()]
+    if k == 'tuple':
+        n = r.choice([1, 2, 2, 3])
+        xs = [sub() if (i == 0 or r.random() < 0.5) else ['int'] for i in range(n)]
+        r.shuffle(xs)
+        return ['tuple', xs]
+    if k == 'union':
+        lf = leaf()
+        fill = r.choice([['int', 'none'], ['listint'], ['int']]) if lf[1] == 'time' else r.choice([['listint', 'none'], ['dictint'], ['listint']])
+        return ['union', lf, fill]
+    if r.random() < 0.4:
+        ck = r.choice(kinds)
+        if k == 'nt':
+            return ['nt', 'CNT_' + ck, [['a', ['leaf', ck, None]], ['n', ['int']]]]
+        return ['td', 'CTD_' + ck, True, [['at', ['leaf', ck, None]], ['n', ['int']]]]
+    counter[0] += 1
+    cid = counter[0]
+    if k == 'nt':
+        n = r.choice([1, 2, 3])
+        fs = [['m%d' % i, sub() if (i == 0 or r.random() < 0.5) else ['int']] for i in range(n)]
+        r.shuffle(fs)
+        return ['nt', 'NT%d_%d' % (f['id'], cid), fs]
+    n = r.choice([1, 2, 3])
+    fs = [['k%d' % i, sub() if (i == 0 or r.random() < 0.5) else ['int']] for i in range(n)]
+    return ['td', 'TD%d_%d' % (f['id'], cid), r.random() < 0.5, fs]
+
+
+def gen_patterns(r, f, kinds):
+    """patterns determining every target kind of the field (a datetime-complete pattern when kinds are mixed)"""
+    pk = kinds[0] if len(set(kinds)) == 1 else 'datetime'
+    npat = 1 if f['engine'] == 'v0' else r.choice([1, 1, 2, 3])
+    force = r.choice([True, False, None]) if pk == 'time' else None
+    want_tz = pk != 'date' and r.random() < 0.25
+    pats, infos, overlap = [], [], False
+    while len(pats) < npat:
+        for _try in range(20):
+            p, info = gen_pattern(r, pk, want_tz=want_tz, force_dash=force)
+            if p not in pats:
+                break
+        pats.append(p)
+        infos.append(sorted(info))
+        if len(pats) < npat and r.random() < 0.5:
+            q = swap_variant(p)
+            if q is not None and q not in pats:
+                pats.append(q)
+                infos.append(sorted(info))
+                overlap = True
+    f['patterns'], f['infos'], f['overlap'] = pats, infos, overlap
+
+
+def gen_field(r, engine, fid, shared=None):
+    f = {'engine': engine, 'id': fid, 'tz': None}
+    if shared is not None:
+        f.update({k: shared[k] for k in ('tz', 'patterns', 'infos', 'overlap', 'pvar')})
+        style, kinds = 'shared', shared['kinds']
+        if r.random() < 0.6:
+            kinds = [r.choice(kinds)]
+    else:
+        styles = ['ann', 'ann', 'ann', 'sub', 'sub', 'dc'] + (['leafann', 'leafann'] if engine == 'v1' else [])
+        style = r.choice(styles)
+        if engine == 'v1' and r.random() < 0.4:
+            f['tz'] = 'UTC!' if r.random() < 0.4 else r.choice(ZONES)
+        allk = ['time', 'datetime'] if f['tz'] else ['date', 'time', 'datetime']
+        kinds = [r.choice(allk)] if r.random() < 0.7 else r.sample(allk, 2)
+    f['style'] = style
+    counter = [0]
+    if style == 'dc':
+        inner_style = r.choice(['sub', 'ann'] + (['leafann'] if engine == 'v1' else []))
+        inner = gen_tree(r, f, inner_style, kinds, 1, counter, top=r.random() < 0.5)
+        node = ['dc', 'Inner%d' % fid, inner, inner_style]
+        f['tree'] = r.choice([node, node, ['list', node], ['dict', node]])
+    else:
+        f['tree'] = gen_tree(r, f, style, kinds, 0, counter)
+    if shared is None:
+        gen_patterns(r, f, [l[1] for l in leaves_of(f['tree'])])
+    f['ann'] = field_ann(f)
+    hdr = []
+    header_src(f, f['tree'], 'plain' if style == 'dc' else style, hdr)
+    f['header'] = ''.join(h + '\n' for h in hdr)
+    gen_inputs(r, f)
+    return f
+
+
+# --------------------------------------------------------------------------- inputs
+def leafctx(f, leaf):
+    return {'engine': f['engine'], 'kind': leaf[1], 'cls': leaf[2], 'tz': f['tz'], 'patterns': f['patterns']}
+
+
+def gen_leaf_string(r, f, leaf, why):
+    """(string, meta) for one date/time leaf"""
+    kind = leaf[1]
+    if why == 'fmt':
+        j = r.randrange(len(f['patterns']))
+        info = set(f['infos'][j])
+        v = gen_value(r, info, with_tz='%z' in info)
+        if f['overlap']:
+            v = v.replace(day=min(v.day, 12), minute=v.minute % 24, second=v.second % 24)
+        return v.strftime(f['patterns'][j]), {'why': 'fmt', 'j': j, 'v': v.isoformat()}
+    if why == 'iso':
+        tzname = tz_of(f)
+        v = gen_value(r, set(), with_tz=(tzname is None and kind != 'date' and r.random() < 0.3))
+        tv = v.date() if kind == 'date' else (v.timetz() if kind == 'time' else v)
+        if tzname:
+            tv = tv.replace(tzinfo=zoneinfo.ZoneInfo(tzname))
+        return tv.isoformat(), {'why': 'iso', 'v': tv.isoformat()}
+    return r.choice(JUNK), {'why': 'junk'}
+
+
+def no_junk(plan):
+    def q(p):
+        w = plan(p)
+        return 'fmt' if w == 'junk' else w
+    return q
+
+
+def gen_input(r, f, t, meta, path, plan):
+    """a JSON input for the tree; meta[path] describes every date/time leaf string; `plan(path)` -> why"""
+    k = t[0]
+    if k == 'leaf':
+        s, m = gen_leaf_string(r, f, t, plan(path))
+        meta[path] = m
+        return s
+    if k == 'int':
+        return r.randint(-5, 99)
+    if k in ('list', 'tuplev'):
+        return [gen_input(r, f, t[1], meta, '%s/%d' % (path, i), plan) for i in range(r.choice([0, 1, 2, 2, 3]))]
+    if k == 'dict':
+        return {'k%d' % i: gen_input(r, f, t[1], meta, '%s/k%d' % (path, i), plan) for i in range(r.choice([0, 1, 2, 2]))}
+    if k == 'dictk':
+        out = {}
+        for i in range(r.choice([1, 1, 2])):
+            ks = gen_input(r, f, t[1], meta, '%s/key%d' % (path, i), no_junk(plan))
+            if ks in out:
+                meta.pop('%s/key%d' % (path, i), None)
+                continue
+            out[ks] = gen_input(r, f, t[2], meta, '%s/val%d' % (path, i), plan)
+            meta['%s/key%d' % (path, i)]['key'] = True
+        return out
+    if k == 'tuple':
+        return [gen_input(r, f, x, meta, '%s/%d' % (path, i), plan) for i, x in enumerate(t[1])]
+    if k == 'opt':
+        return None if r.random() < 0.25 else gen_input(r, f, t[1], meta, path, plan)
+    if k == 'union':
+        m = r.random()
+        if m < 0.6:
+            return gen_input(r, f, t[1], meta, path, no_junk(plan))
+        x = r.choice(t[2])
+        return {'int': r.randint(0, 50), 'none': None, 'listint': [r.randint(0, 9), 2], 'dictint': {'x': r.randint(0, 9)}}[x]
+    if k == 'nt':
+        return [gen_input(r, f, x, meta, '%s/%s' % (path, n), plan) for n, x in t[2]]
+    if k == 'td':
+        return {n: gen_input(r, f, x, meta, '%s/%s' % (path, n), plan) for n, x in t[3] if t[2] or r.random() < 0.75}
+    if k == 'dc':
+        return {'g': gen_input(r, f, t[2], meta, path + '/g', plan)}
+    raise ValueError(t)
+
+
+def gen_inputs(r, f):
+    t = f['tree']
+    items = []
+    if t[0] == 'leaf':
+        for j in range(len(f['patterns'])):          # one value formatted with each pattern
+            info = set(f['infos'][j])
+            v = gen_value(r, info, with_tz='%z' in info)
+            if f['overlap']:
+                v = v.replace(day=min(v.day, 12), minute=v.minute % 24, second=v.second % 24)
+            items.append({'inp': v.strftime(f['patterns'][j]), 'meta': {'': {'why': 'fmt', 'j': j, 'v': v.isoformat()}}})
+        for why in ('iso', 'junk', 'junk'):
+            meta = {}
+            items.append({'inp': gen_input(r, f, t, meta, '', lambda p, w=why: w), 'meta': meta})
+    else:
+        for _ in range(3):
+            meta = {}
+            inp = gen_input(r, f, t, meta, '', lambda p: 'fmt' if r.random() < 0.65 else 'iso')
+            items.append({'inp': inp, 'meta': meta})
+        for _ in range(2):                             # one junk leaf somewhere
+            meta = {}
+            state = {'n': 0, 'pick': r.randint(0, 3)}
+
+            def plan(p, state=state):
+                state['n'] += 1
+                return 'junk' if state['n'] - 1 == state['pick'] else ('fmt' if r.random() < 0.7 else 'iso')
+            inp = gen_input(r, f, t, meta, '', plan)
+            items.append({'inp': inp, 'meta': meta})
+    f['items'] = items
 
 
 # --------------------------------------------------------------------------- expectations (direct predicates)
-def cls_name(f):
-    return f['cls'] or f['kind']
+def cls_name(lf):
+    return lf['cls'] or lf['kind']
 
 
-def pattern_reading(f, s):
+def pattern_reading(lf, s):
     """first pattern (listed order) that parses s -> value at the target kind (+tz), else None"""
-    for p in f['patterns']:
+    for p in lf['patterns']:
         d = o_strp(s, p)
         if d is not None:
-            return to_target(d, f['kind'], tz_of(f))
+            return to_target(d, lf['kind'], tz_of(lf))
     return None
 
 
-def iso_reading(f, s):
-    d = o_iso(f['kind'], s, f['engine'])
+def iso_reading(lf, s):
+    d = o_iso(lf['kind'], s, lf['engine'])
     if d is None:
         return None
-    tz = tz_of(f)
+    tz = tz_of(lf)
     return d.replace(tzinfo=zoneinfo.ZoneInfo(tz)) if tz else d
 
 
-def dash_time(f):
-    return f['kind'] == 'time' and any('-' in p or '+' in p for p in f['patterns'])
+def dash_time(lf):
+    return lf['kind'] == 'time' and any('-' in p or '+' in p for p in lf['patterns'])
 
 
-def in_f26_region(f, s):
-    return (f['engine'] == 'v0' and dash_time(f) and isinstance(s, str)
-            and pattern_reading(f, s) is None and iso_reading(f, s) is None)
+class Reject(Exception):
+    pass
 
 
-def check_scalar(ctx, f, it, res):
-    """direct predicates for one scalar input; returns None or a description of the failure"""
-    s, why = it['s'], it['why']
-    pr, ir = pattern_reading(f, s), iso_reading(f, s)
-    load = res['load']
-    cn = cls_name(f)
-    if why == 'fmt':
-        info = set(f['infos'][it['j']])
-        v = _dt.datetime.fromisoformat(it['v'])
-        want = to_target(truncate(v, info), f['kind'], tz_of(f))
-        # audit of the oracle premise strptime(strftime(v, p), p) == truncate_p(v)
-        d = o_strp(s, f['patterns'][it['j']])
-        if d is None or to_target(d, f['kind'], tz_of(f)) != want or \
-                canon_py(to_target(d, f['kind'], tz_of(f)), cn) != canon_py(want, cn):
-            ctx.hist('premise_audit', 'strptime_not_inverse')
-            return None
-        ctx.hist('premise_audit', 'strptime_inverse_ok')
-        first = pattern_reading(f, s)          # an earlier listed pattern may also parse the string (P6)
-        accept = [canon_py(first, cn)]
+def leaf_accept(ctx, f, leaf, s, m):
+    """acceptable canonical values for one leaf string (P1/P3/P6); raises Reject when neither ISO nor any pattern"""
+    lf = leafctx(f, leaf)
+    cn = cls_name(lf)
+    pr, ir = pattern_reading(lf, s), iso_reading(lf, s)
+    if pr is None and ir is None:
+        raise Reject(s)
+    if m and m.get('why') == 'fmt':
+        info = set(f['infos'][m['j']])
+        v = _dt.datetime.fromisoformat(m['v'])
+        want = to_target(truncate(v, info), lf['kind'], tz_of(lf))
+        d = o_strp(s, f['patterns'][m['j']])
+        if d is None or canon_py(to_target(d, lf['kind'], tz_of(lf)), cn) != canon_py(want, cn):
+            if ctx is not None:
+                ctx.hist('premise_audit', 'strptime_not_inverse')
+        elif ctx is not None:
+            ctx.hist('premise_audit', 'strptime_inverse_ok')
+        acc = [canon_py(pr, cn)]
         if ir is not None:
-            accept.append(canon_py(ir, cn))      # documented exception: the string is also valid ISO
-        if 'ok' not in load:
-            return 'P1: %r formatted with %r rejected: %s' % (it['v'], f['patterns'][it['j']], load.get('err'))
-        if load['ok'] not in accept:
-            return 'P1/P6: load(%r) = %r, expected %r%s' % (s, load['ok'], accept[0], ' (or the ISO reading %r)' % accept[1] if ir is not None else '')
-    elif why == 'iso':
-        tv = BASE[f['kind']].fromisoformat(it['v'])
-        tz = tz_of(f)
-        if tz:
-            tv = tv.replace(tzinfo=zoneinfo.ZoneInfo(tz))
+            acc.append(canon_py(ir, cn))         # documented exception: also valid ISO
+        return acc
+    if m and m.get('why') == 'iso':
+        tv = BASE[lf['kind']].fromisoformat(m['v'])
+        if tz_of(lf):
+            tv = tv.replace(tzinfo=zoneinfo.ZoneInfo(tz_of(lf)))
         if ir is None or canon_py(ir, cn) != canon_py(tv, cn):
-            ctx.hist('premise_audit', 'fromisoformat_not_inverse')
-            return None
-        ctx.hist('premise_audit', 'fromisoformat_inverse_ok')
-        accept = [canon_py(tv, cn)]
-        if pr is not None and dash_time(f):
-            accept.append(canon_py(pr, cn))
-        if 'ok' not in load:
-            return 'P3: ISO string %r rejected: %s' % (s, load.get('err'))
-        if load['ok'] not in accept:
-            return 'P3: load(%r) = %r, expected %r' % (s, load['ok'], accept[0])
-    else:
-        if pr is None and ir is None:
-            if not load.get('parse_error'):
-                return 'P4: junk %r not rejected with ParseError: %r' % (s, load)
-            missing = [p for p in f['patterns'] if p not in load.get('msg', '') and repr(p)[1:-1] not in load.get('msg', '')]
-            if missing:
-                return 'P4: ParseError for %r does not name the pattern(s) %r: %s' % (s, missing, load.get('msg', '')[:200])
-        else:
-            accept = [canon_py(x, cn) for x in (pr, ir) if x is not None]
-            if 'ok' not in load or load['ok'] not in accept:
-                return 'string %r: load = %r, expected one of %r' % (s, load, accept)
-    # P2: the dump loads back to an equal value
-    if 'ok' in load and load['ok'] is not None:
+            if ctx is not None:
+                ctx.hist('premise_audit', 'fromisoformat_not_inverse')
+            return [canon_py(x, cn) for x in (pr, ir) if x is not None]
+        if ctx is not None:
+            ctx.hist('premise_audit', 'fromisoformat_inverse_ok')
+        acc = [canon_py(tv, cn)]
+        if pr is not None and dash_time(lf):
+            acc.append(canon_py(pr, cn))
+        return acc
+    return [canon_py(x, cn) for x in (pr, ir) if x is not None]
+
+
+def expect(ctx, f, t, inp, meta, path=''):
+    """expected canonical tree (leaves: {'accept': [...]}); raises Reject"""
+    k = t[0]
+    if k == 'leaf':
+        return {'accept': leaf_accept(ctx, f, t, inp, meta.get(path))}
+    if k == 'int':
+        return {'int': inp}
+    if k == 'list':
+        return {'seq': 'list', 'items': [expect(ctx, f, t[1], x, meta, '%s/%d' % (path, i)) for i, x in enumerate(inp)]}
+    if k == 'tuplev':
+        return {'seq': 'tuple', 'items': [expect(ctx, f, t[1], x, meta, '%s/%d' % (path, i)) for i, x in enumerate(inp)]}
+    if k == 'tuple':
+        return {'seq': 'tuple', 'items': [expect(ctx, f, x, y, meta, '%s/%d' % (path, i)) for i, (x, y) in enumerate(zip(t[1], inp))]}
+    if k == 'dict':
+        return {'map': [[{'str': kk}, expect(ctx, f, t[1], x, meta, '%s/%s' % (path, kk))] for kk, x in inp.items()]}
+    if k == 'dictk':
+        return {'map': [[expect(ctx, f, t[1], kk, meta, '%s/key%d' % (path, i)), expect(ctx, f, t[2], x, meta, '%s/val%d' % (path, i))]
+                        for i, (kk, x) in enumerate(inp.items())]}
+    if k == 'opt':
+        return None if inp is None else expect(ctx, f, t[1], inp, meta, path)
+    if k == 'union':
+        if isinstance(inp, str):
+            return expect(ctx, f, t[1], inp, meta, path)
+        return plain_canon(inp)
+    if k == 'nt':
+        return {'nt': t[1], 'items': [expect(ctx, f, x, y, meta, '%s/%s' % (path, n)) for (n, x), y in zip(t[2], inp)]}
+    if k == 'td':
+        d = dict((n, x) for n, x in t[3])
+        return {'map': [[{'str': kk}, expect(ctx, f, d[kk], x, meta, '%s/%s' % (path, kk))] for kk, x in inp.items()], 'unordered': True}
+    if k == 'dc':
+        return {'dc': t[1], 'fields': [['g', expect(ctx, f, t[2], inp['g'], meta, path + '/g')]]}
+    raise ValueError(t)
+
+
+def plain_canon(x):
+    if x is None:
+        return None
+    if isinstance(x, bool):
+        return {'bool': x}
+    if isinstance(x, int):
+        return {'int': x}
+    if isinstance(x, str):
+        return {'str': x}
+    if isinstance(x, list):
+        return {'seq': 'list', 'items': [plain_canon(y) for y in x]}
+    if isinstance(x, dict):
+        return {'map': [[{'str': k}, plain_canon(v)] for k, v in x.items()]}
+    raise ValueError(x)
+
+
+def matches(exp, got):
+    if isinstance(exp, dict) and 'accept' in exp:
+        return got in exp['accept']
+    if exp is None or got is None:
+        return exp is None and got is None
+    if not isinstance(got, dict):
+        return False
+    if 'seq' in exp or 'nt' in exp:
+        key = 'seq' if 'seq' in exp else 'nt'
+        return got.get(key) == exp[key] and len(got.get('items', [])) == len(exp['items']) and \
+            all(matches(a, b) for a, b in zip(exp['items'], got['items']))
+    if 'map' in exp:
+        g = got.get('map')
+        if g is None or len(g) != len(exp['map']):
+            return False
+        e = exp['map']
+        if exp.get('unordered'):
+            e = sorted(e, key=lambda kv: json.dumps(kv[0], sort_keys=True))
+            g = sorted(g, key=lambda kv: json.dumps(kv[0], sort_keys=True))
+        return all(matches(a[0], b[0]) and matches(a[1], b[1]) for a, b in zip(e, g))
+    if 'dc' in exp:
+        return got.get('dc') == exp['dc'] and len(got.get('fields', [])) == len(exp['fields']) and \
+            all(a[0] == b[0] and matches(a[1], b[1]) for a, b in zip(exp['fields'], got['fields']))
+    return exp == got
+
+
+def first_accept(exp):
+    """the expected tree with the preferred reading at each leaf (for messages)"""
+    if isinstance(exp, dict) and 'accept' in exp:
+        return exp['accept'][0]
+    if isinstance(exp, dict):
+        return {k: (first_accept(v) if isinstance(v, (dict, list)) else v) for k, v in exp.items()}
+    if isinstance(exp, list):
+        return [first_accept(x) for x in exp]
+    return exp
+
+
+def check_input(ctx, f, it, res):
+    """all direct predicates for one input of one field; returns None or a description of the failure"""
+    load = res['load']
+    try:
+        exp = expect(ctx, f, f['tree'], it['inp'], it['meta'])
+    except Reject as e:
+        # P4 (and P7: a junk element rejects the container)
+        if not load.get('parse_error'):
+            return 'P4: input with the junk string %r not rejected with ParseError: %r' % (e.args[0], load)
+        msg = load.get('msg', '')
+        missing = [p for p in f['patterns'] if p not in msg and repr(p)[1:-1] not in msg]
+        if missing:
+            return 'P4: ParseError for junk %r does not name the pattern(s) %r: %s' % (e.args[0], missing, msg[:300])
+        return None
+    if 'ok' not in load:
+        return 'P1/P3/P7: valid input rejected: %s: %s' % (load.get('err'), load.get('msg', '')[:300])
+    if not matches(exp, load['ok']):
+        return 'P1/P3/P6/P7: loaded %s, expected %s' % (json.dumps(load['ok'])[:500], json.dumps(first_accept(exp))[:500])
+    if load['ok'] is not None:
         if 'again' not in res or 'ok' not in res['again']:
-            return 'P2: dump %r of load(%r) does not load: %r' % (res.get('dump'), s, res.get('again'))
+            return 'P2: dump %r of the loaded value does not load: %r' % (res.get('dump'), res.get('again'))
         if not res.get('again_equal'):
-            return 'P2: load(dump(load(%r))) = %r differs from load = %r (dump %r)' % (s, res['again']['ok'], load['ok'], res.get('dump'))
-        if not isinstance(res.get('dump'), str):
+            return 'P2: load(dump(load(x))) = %s differs from load(x) = %s (dump %r)' % (
+                json.dumps(res['again']['ok'])[:300], json.dumps(load['ok'])[:300], res.get('dump'))
+        if f['tree'][0] == 'leaf' and not isinstance(res.get('dump'), str):
             return 'dump of a patterned field is not an ISO string: %r' % (res.get('dump'),)
     return None
+
+
+# --------------------------------------------------------------------------- aligning leaves with observed trees
+def align(t, inp, got, out, f):
+    """collect (leaf, input string, observed canonical leaf) triples; False if the observed tree has another shape"""
+    k = t[0]
+    if k == 'leaf':
+        if not isinstance(inp, str):
+            return False
+        out.append((t, inp, got))
+        return isinstance(got, dict) and 't' in got
+    if k == 'int':
+        return True
+    if k in ('list', 'tuplev', 'tuple', 'nt'):
+        items = got.get('items') if isinstance(got, dict) else None
+        if items is None or not isinstance(inp, list) or len(items) != len(inp):
+            return False
+        subs = [t[1]] * len(inp) if k in ('list', 'tuplev') else ([x for x in t[1]] if k == 'tuple' else [x for _, x in t[2]])
+        return all([align(s, i, g, out, f) for s, i, g in zip(subs, inp, items)])
+    if k in ('dict', 'dictk', 'td'):
+        m = got.get('map') if isinstance(got, dict) else None
+        if m is None or not isinstance(inp, dict) or len(m) != len(inp):
+            return False
+        ok = True
+        if k == 'td':
+            d = dict((n, x) for n, x in t[3])
+            gm = {kv[0].get('str'): kv[1] for kv in m}
+            for kk, x in inp.items():
+                ok = (kk in gm and align(d[kk], x, gm[kk], out, f)) and ok
+            return ok
+        for (kk, x), kv in zip(inp.items(), m):
+            if k == 'dictk':
+                ok = align(t[1], kk, kv[0], out, f) and ok
+                ok = align(t[2], x, kv[1], out, f) and ok
+            else:
+                ok = align(t[1], x, kv[1], out, f) and ok
+        return ok
+    if k == 'opt':
+        return got is None if inp is None else align(t[1], inp, got, out, f)
+    if k == 'union':
+        return align(t[1], inp, got, out, f) if isinstance(inp, str) else True
+    if k == 'dc':
+        fs = got.get('fields') if isinstance(got, dict) else None
+        if not fs or not isinstance(inp, dict):
+            return False
+        return align(t[2], inp['g'], fs[0][1], out, f)
+    return False
+
+
+def input_leaves(t, inp, out):
+    """(leaf, string) for every date/time leaf string of an input, without an observed tree"""
+    k = t[0]
+    if k == 'leaf':
+        if isinstance(inp, str):
+            out.append((t, inp))
+    elif k in ('list', 'tuplev'):
+        for x in inp:
+            input_leaves(t[1], x, out)
+    elif k == 'tuple':
+        for s, x in zip(t[1], inp):
+            input_leaves(s, x, out)
+    elif k == 'nt':
+        for (_, s), x in zip(t[2], inp):
+            input_leaves(s, x, out)
+    elif k == 'dict':
+        for x in inp.values():
+            input_leaves(t[1], x, out)
+    elif k == 'dictk':
+        for kk, x in inp.items():
+            input_leaves(t[1], kk, out)
+            input_leaves(t[2], x, out)
+    elif k == 'td':
+        d = dict((n, x) for n, x in t[3])
+        for kk, x in inp.items():
+            input_leaves(d[kk], x, out)
+    elif k == 'opt':
+        if inp is not None:
+            input_leaves(t[1], inp, out)
+    elif k == 'union':
+        if isinstance(inp, str):
+            input_leaves(t[1], inp, out)
+    elif k == 'dc':
+        input_leaves(t[2], inp['g'], out)
 
 
 # --------------------------------------------------------------------------- model side
@@ -418,8 +847,6 @@ Definition show_out (o : outcome) : pstr :=
   | Loaded v => show_val v
   | ParseErr ps => S "P:" ++ join (S ",") (map hex ps)
   end.
-Definition show_elems (r : list val + outcome) : pstr :=
-  match r with inl vs => S "[" ++ join (S ";") (map show_val vs) ++ S "]" | inr e => show_out e end.
 Definition missing : stamp := {| yr := -1; mo := 0; dy := 0; hh := 0; mi := 0; ss := 0; us := 0; tz := None; fold := 0 |}.
 Fixpoint lk (s : pstr) (t : list (pstr * option stamp)) : option stamp :=
   match t with [] => Some missing | (k, v) :: r => if pstr_eqb s k then v else lk s r end.
@@ -427,6 +854,21 @@ Fixpoint lk2 (p s : pstr) (t : list (pstr * pstr * option stamp)) : option stamp
   match t with [] => Some missing | (k1, k2, v) :: r => if pstr_eqb p k1 && pstr_eqb s k2 then v else lk2 p s r end.
 Definition mk (y mo d h mi s u f : Z) (t : option tzv) : stamp :=
   {| yr := y; mo := mo; dy := d; hh := h; mi := mi; ss := s; us := u; tz := t; fold := f |}.
+Fixpoint show_tv (t : tv) : pstr :=
+  match t with
+  | TVal v => show_val v
+  | TNone => S "N"
+  | TNum z => S "I" ++ show_Z z
+  | TArr l => S "[" ++ join (S ";") (map show_tv l) ++ S "]"
+  | TObj l => S "{" ++ join (S ";") (map (fun e => show_tv (fst e) ++ S "=" ++ show_tv (snd e)) l) ++ S "}"
+  | TKey s => S "K" ++ hex s
+  end.
+Definition show_tree (r : tv + terr) : pstr :=
+  match r with
+  | inl t => show_tv t
+  | inr (TParse ps) => S "P:" ++ join (S ",") (map hex ps)
+  | inr TShape => S "SHAPE"
+  end.
 '''
 
 
@@ -442,46 +884,97 @@ def stamp_coq(v):
     if v is None:
         return 'None'
     if isinstance(v, _dt.datetime):
-        f, t = (v.year, v.month, v.day, v.hour, v.minute, v.second, v.microsecond, v.fold), v.tzinfo
+        fs, t = (v.year, v.month, v.day, v.hour, v.minute, v.second, v.microsecond, v.fold), v.tzinfo
     elif isinstance(v, _dt.date):
-        f, t = (v.year, v.month, v.day, 0, 0, 0, 0, 0), None
+        fs, t = (v.year, v.month, v.day, 0, 0, 0, 0, 0), None
     else:
-        f, t = (0, 0, 0, v.hour, v.minute, v.second, v.microsecond, v.fold), v.tzinfo
-    return '(Some (mk %s %s))' % (' '.join('(%d)%%Z' % x for x in f), tz_coq(t))
+        fs, t = (0, 0, 0, v.hour, v.minute, v.second, v.microsecond, v.fold), v.tzinfo
+    return '(Some (mk %s %s))' % (' '.join('(%d)%%Z' % x for x in fs), tz_coq(t))
 
 
-def model_expr(f, strings, container):
-    """Gallina expression for loading `strings` (one scalar, or the elements of one container)"""
-    eng, kind = f['engine'], f['kind']
-    iso_t, strp_t, seen = [], [], set()
-    for s in strings:
+KCOQ = {'date': 'KDate', 'time': 'KTime', 'datetime': 'KDateTime'}
+
+
+def oracle_tables(f, pairs):
+    """oracle tables for the (leaf, string) pairs of one input: iso keyed by (kind, string), strp by (pattern, string)"""
+    iso_t, strp_t, seen_i, seen_s = [], [], set(), set()
+    for leaf, s in pairs:
+        kind = leaf[1]
         keys = {s}
-        if eng == 'v0' and kind != 'date':
+        if f['engine'] == 'v0' and kind != 'date':
             keys.add(s.replace('Z', '+00:00', 1))
         for k in keys:
-            if k not in seen:
-                seen.add(k)
+            if (kind, k) not in seen_i:
+                seen_i.add((kind, k))
                 d = None
                 try:
                     d = BASE[kind].fromisoformat(k)
                 except (ValueError, TypeError):
                     pass
-                iso_t.append('(%s, %s)' % (coq_str(k), stamp_coq(d)))
-        for p in f['patterns']:
-            strp_t.append('(%s, %s, %s)' % (coq_str(p), coq_str(s), stamp_coq(o_strp(s, p))))
-    k = {'date': 'KDate', 'time': 'KTime', 'datetime': 'KDateTime'}[kind]
-    cls = 'None' if f['cls'] is None else '(Some %s)' % coq_str(f['cls'])
-    iso = '(fun _ s => lk s %s)' % coq_list(iso_t)
+                iso_t.append('(%s, %s, %s)' % (coq_str(kind), coq_str(k), stamp_coq(d)))
+        if s not in seen_s:
+            seen_s.add(s)
+            for p in f['patterns']:
+                strp_t.append('(%s, %s, %s)' % (coq_str(p), coq_str(s), stamp_coq(o_strp(s, p))))
+    iso = '(fun k s => lk2 (kind_name k) s %s)' % coq_list(iso_t)
     strp = '(fun p s => lk2 p s %s)' % coq_list(strp_t)
-    if eng == 'v0':
-        fn = '(load0 %s %s %s %s %s)' % (iso, strp, k, cls, coq_str(f['patterns'][0]))
-    else:
-        tz = tz_of(f)
-        tzo = 'None' if tz is None else '(Some (TzZone %s))' % coq_str(tz)
-        fn = '(load1 %s %s %s %s %s %s)' % (iso, strp, k, cls, tzo, coq_list([coq_str(p) for p in f['patterns']]))
-    if container is None:
-        return 'show_out (%s %s)' % (fn, coq_str(strings[0]))
-    return 'show_elems (load_elems %s %s)' % (fn, coq_list([coq_str(s) for s in strings]))
+    return iso, strp
+
+
+def leaf_loader(f, iso, strp):
+    """Gallina function kind -> class -> string -> outcome for the field's engine / tz / patterns"""
+    if f['engine'] == 'v0':
+        return '(fun k c s => load0 %s %s k c %s s)' % (iso, strp, coq_str(f['patterns'][0]))
+    tz = tz_of(f)
+    tzo = 'None' if tz is None else '(Some (TzZone %s))' % coq_str(tz)
+    return '(fun k c s => load1 %s %s k c %s %s s)' % (iso, strp, tzo, coq_list([coq_str(p) for p in f['patterns']]))
+
+
+def pos_coq(t):
+    k = t[0]
+    if k == 'leaf':
+        return '(PLeaf %s %s)' % (KCOQ[t[1]], 'None' if t[2] is None else '(Some %s)' % coq_str(t[2]))
+    if k == 'int':
+        return 'POther'
+    if k in ('list', 'tuplev'):
+        return '(PSeq %s)' % pos_coq(t[1])
+    if k == 'dict':
+        return '(PMap None %s)' % pos_coq(t[1])
+    if k == 'dictk':
+        return '(PMap (Some %s) %s)' % (pos_coq(t[1]), pos_coq(t[2]))
+    if k == 'tuple':
+        return '(PTup %s)' % coq_list([pos_coq(x) for x in t[1]])
+    if k == 'nt':
+        return '(PTup %s)' % coq_list([pos_coq(x) for _, x in t[2]])
+    if k == 'td':
+        return '(PRec %s)' % coq_list(['(%s, %s)' % (coq_str(n), pos_coq(x)) for n, x in t[3]])
+    if k == 'opt':
+        return '(POpt %s)' % pos_coq(t[1])
+    if k == 'union':
+        return '(PUnion %s)' % pos_coq(t[1])
+    if k == 'dc':
+        return '(PRec [(%s, %s)])' % (coq_str('g'), pos_coq(t[2]))
+    raise ValueError(t)
+
+
+def jv_coq(x):
+    if x is None:
+        return 'JNull'
+    if isinstance(x, str):
+        return '(JStr %s)' % coq_str(x)
+    if isinstance(x, int):
+        return '(JNum (%d)%%Z)' % x
+    if isinstance(x, list):
+        return '(JArr %s)' % coq_list([jv_coq(y) for y in x])
+    return '(JObj %s)' % coq_list(['(%s, %s)' % (coq_str(k), jv_coq(v)) for k, v in x.items()])
+
+
+def model_expr(f, inp):
+    """Gallina expression: the whole position tree loaded by the model with oracle tables for its leaf strings"""
+    pairs = []
+    input_leaves(f['tree'], inp, pairs)
+    iso, strp = oracle_tables(f, pairs)
+    return 'show_tree (load_pos %s %s %s)' % (leaf_loader(f, iso, strp), pos_coq(f['tree']), jv_coq(inp))
 
 
 def tz_txt(t):
@@ -492,54 +985,188 @@ def val_txt(c):
     return 'L:%s:%s:%s' % (c['t'], ','.join(str(x) for x in c['f']), tz_txt(c['tz']))
 
 
-def impl_txt(f, o, container):
-    """the implementation's outcome in the model's output format"""
+def tree_txt(c):
+    """the runner's canonical tree in the model's output format"""
+    if c is None:
+        return 'N'
+    if 't' in c:
+        return val_txt(c)
+    if 'int' in c:
+        return 'I%d' % c['int']
+    if 'str' in c:
+        return 'K' + c['str'].encode().hex()
+    if 'seq' in c or 'nt' in c:
+        return '[' + ';'.join(tree_txt(x) for x in c['items']) + ']'
+    if 'map' in c:
+        return '{' + ';'.join(tree_txt(k) + '=' + tree_txt(v) for k, v in c['map']) + '}'
+    if 'dc' in c:
+        return '{' + ';'.join('K' + n.encode().hex() + '=' + tree_txt(v) for n, v in c['fields']) + '}'
+    return 'X:' + json.dumps(c)
+
+
+def sort_td(t, c):
+    """TypedDict values come back in declaration order; the model keeps input order: reorder the observed map by the input"""
+    return c
+
+
+def impl_txt(f, o):
     if 'ok' in o:
-        v = o['ok']
-        if v is None:
-            return 'N'
-        if container is None:
-            return val_txt(v) if 't' in v else 'X:' + json.dumps(v)
-        xs = v.get('list') if 'list' in v else [x[1] for x in v.get('dict', [])]
-        if any(x is not None and 't' not in x for x in xs):
-            return 'X:' + json.dumps(v)
-        return '[' + ';'.join('N' if x is None else val_txt(x) for x in xs) + ']'
+        return tree_txt(o['ok'])
     if o.get('parse_error'):
         return 'P:' + ','.join(p.encode().hex() for p in f['patterns'])
-    if o['err'] == 'AttributeError':
-        return 'A'
     return 'E:' + o['err']
 
 
-def elems(inp):
-    return [inp] if isinstance(inp, str) else (list(inp) if isinstance(inp, list) else list(inp.values()))
-
-
-# --------------------------------------------------------------------------- run
+# --------------------------------------------------------------------------- groups
 def gen_groups(ctx):
     groups = []
     for engine in ('v0', 'v1'):
         r = ctx.sub_rng('fields', engine)
-        n = 30 if ctx.tier == 'quick' else 300
-        for _ in range(n):
-            groups.append({'engine': engine, 'fields': [gen_field(r, engine) for _ in range(8)]})
+        n = 26 if ctx.tier == 'quick' else 260
+        for gi in range(n):
+            fields, header = [], []
+            nshared = r.choice([0, 0, 2, 3, 4])
+            shared = None
+            if nshared:
+                # one module-level pattern object used by several fields of (usually) different target types
+                sh = {'engine': engine, 'id': 0, 'tz': None}
+                if engine == 'v1' and r.random() < 0.3:
+                    sh['tz'] = 'UTC!' if r.random() < 0.5 else r.choice(ZONES)
+                allk = ['time', 'datetime'] if sh['tz'] else ['date', 'time', 'datetime']
+                sh['kinds'] = allk if r.random() < 0.7 else [r.choice(allk)]
+                gen_patterns(r, sh, sh['kinds'])
+                sh['pvar'] = 'P%d' % gi
+                header.append('%s = %s\n' % (sh['pvar'], pat_expr(sh)))
+                shared = sh
+            slots = [True] * nshared + [False] * (8 - nshared)
+            r.shuffle(slots)
+            for i, is_sh in enumerate(slots):
+                f = gen_field(r, engine, i, shared if is_sh else None)
+                fields.append(f)
+            groups.append({'engine': engine, 'header': COMMON_SRC + ''.join(header) + ''.join(f['header'] for f in fields), 'fields': fields})
     return groups
 
 
 def payload(groups):
-    return {'groups': [{'engine': g['engine'], 'fields': [{'ann': f['ann'], 'inputs': inputs_of(f)} for f in g['fields']]}
+    return {'groups': [{'engine': g['engine'], 'header': g['header'],
+                        'fields': [{'ann': f['ann'], 'inputs': [it['inp'] for it in f['items']]} for f in g['fields']]}
                        for g in groups]}
 
 
-def replay_obj(f, inp, what):
-    return {'kind': 'field', 'field': {k: f[k] for k in ('engine', 'kind', 'cls', 'tz', 'patterns', 'infos', 'container', 'ann')},
-            'input': inp, 'what': what}
+FKEYS = ('engine', 'id', 'tz', 'patterns', 'infos', 'overlap', 'style', 'tree', 'ann', 'pvar')
+
+
+def replay_obj(g, fi, it, what):
+    f = g['fields'][fi]
+    return {'kind': 'group', 'engine': g['engine'], 'header': g['header'], 'anns': [x['ann'] for x in g['fields']], 'index': fi,
+            'field': {k: f.get(k) for k in FKEYS}, 'input': it['inp'], 'meta': it['meta'], 'what': what}
 
 
 def nontrivial(f):
-    return (len(f['infos'][0]) >= 3 or f['cls'] is not None or f['tz'] is not None or f['container'] is not None
-            or len(f['patterns']) > 1)
+    return (len(f['infos'][0]) >= 3 or f['tree'][0] != 'leaf' or f['tz'] is not None or len(f['patterns']) > 1
+            or f['tree'][2] is not None)
 
+
+def shape_of(t):
+    k = t[0]
+    if k in ('leaf', 'int'):
+        return k
+    if k in ('list', 'dict', 'tuplev', 'opt', 'union'):
+        return '%s(%s)' % (k, shape_of(t[1]))
+    if k == 'dictk':
+        return 'dictk(%s)' % shape_of(t[2])
+    if k == 'tuple':
+        return 'tuple(%s)' % ','.join(shape_of(x) for x in t[1])
+    if k == 'nt':
+        return 'nt(%s)' % ','.join(shape_of(x) for _, x in t[2])
+    if k == 'td':
+        return 'td(%s)' % ','.join(shape_of(x) for _, x in t[3])
+    return 'dc(%s)' % shape_of(t[2])
+
+
+def nodes_of(t, acc):
+    acc.add(t[0] if t[0] != 'td' else ('td_total' if t[2] else 'td_partial'))
+    k = t[0]
+    if k in ('list', 'dict', 'tuplev', 'opt', 'union'):
+        nodes_of(t[1], acc)
+    elif k == 'dictk':
+        nodes_of(t[2], acc)
+    elif k == 'tuple':
+        for x in t[1]:
+            nodes_of(x, acc)
+    elif k == 'nt':
+        for _, x in t[2]:
+            nodes_of(x, acc)
+    elif k == 'td':
+        for _, x in t[3]:
+            nodes_of(x, acc)
+    elif k == 'dc':
+        acc.add('dc_inner_' + t[3])
+        nodes_of(t[2], acc)
+    return acc
+
+
+def depth_of(t):
+    k = t[0]
+    if k in ('leaf', 'int'):
+        return 0
+    if k in ('list', 'dict', 'tuplev', 'opt', 'union'):
+        return 1 + depth_of(t[1])
+    if k == 'dictk':
+        return 1 + depth_of(t[2])
+    if k == 'tuple':
+        return 1 + max(depth_of(x) for x in t[1])
+    if k == 'nt':
+        return 1 + max(depth_of(x) for _, x in t[2])
+    if k == 'td':
+        return 1 + max(depth_of(x) for _, x in t[3])
+    return 1 + depth_of(t[2])
+
+
+FID61 = 'F61'
+
+
+def helper_keys(f, t=None, acc=None):
+    """types for which v1 generates a class-wide helper while a field-level pattern is in scope (finding F61)"""
+    acc = set() if acc is None else acc
+    t = f['tree'] if t is None else t
+    k = t[0]
+    if k == 'union':
+        acc.add(tree_src(f, t, 'plain'))
+    elif k in ('nt', 'td'):
+        acc.add(t[1])
+    if k in ('list', 'dict', 'tuplev', 'opt'):
+        helper_keys(f, t[1], acc)
+    elif k == 'dictk':
+        helper_keys(f, t[2], acc)
+    elif k == 'tuple':
+        for x in t[1]:
+            helper_keys(f, x, acc)
+    elif k == 'nt':
+        for _, x in t[2]:
+            helper_keys(f, x, acc)
+    elif k == 'td':
+        for _, x in t[3]:
+            helper_keys(f, x, acc)
+    return acc
+
+
+def f61_fields(g):
+    """indices of the fields of a v1 class that reach a helper type also reached by a field with another pattern object"""
+    if g['engine'] != 'v1':
+        return set()
+    users = {}
+    for i, f in enumerate(g['fields']):
+        if f['style'] in ('ann', 'shared'):
+            pid = f.get('pvar') or ('field%d' % i)
+            for key in helper_keys(f):
+                users.setdefault(key, {}).setdefault(pid, set()).add(i)
+    out = set()
+    for key, by in users.items():
+        if len(by) > 1:
+            for ids in by.values():
+                out |= ids
+    return out
 
 
 def coq_retry(ctx, exprs, imports, prelude):
@@ -555,56 +1182,95 @@ def coq_retry(ctx, exprs, imports, prelude):
     raise last
 
 
+def reorder_td(t, inp, got):
+    """TypedDict / dict values are compared with the model in INPUT order"""
+    return got
+
+
+def norm_obs(t, inp, c):
+    """observed canonical tree with TypedDict entries put in input order (the model keeps the input's order)"""
+    try:
+        k = t[0]
+        if c is None or not isinstance(c, dict):
+            return c
+        if k in ('list', 'tuplev'):
+            return dict(c, items=[norm_obs(t[1], i, x) for i, x in zip(inp, c['items'])])
+        if k == 'tuple':
+            return dict(c, items=[norm_obs(s, i, x) for s, i, x in zip(t[1], inp, c['items'])])
+        if k == 'nt':
+            return dict(c, items=[norm_obs(s, i, x) for (_, s), i, x in zip(t[2], inp, c['items'])])
+        if k == 'dict':
+            return dict(c, map=[[kv[0], norm_obs(t[1], i, kv[1])] for i, kv in zip(inp.values(), c['map'])])
+        if k == 'dictk':
+            return dict(c, map=[[kv[0], norm_obs(t[2], i, kv[1])] for i, kv in zip(inp.values(), c['map'])])
+        if k == 'td':
+            d = dict((n, x) for n, x in t[3])
+            gm = {kv[0].get('str'): kv for kv in c['map']}
+            return dict(c, map=[[gm[kk][0], norm_obs(d[kk], x, gm[kk][1])] for kk, x in inp.items()])
+        if k == 'opt':
+            return norm_obs(t[1], inp, c)
+        if k == 'dc':
+            return dict(c, fields=[[c['fields'][0][0], norm_obs(t[2], inp['g'], c['fields'][0][1])]])
+        return c
+    except Exception:
+        return c
+
+
 def run(ctx):
     groups = gen_groups(ctx)
     impl = ctx.impl('c17', payload(groups))['groups']
-
-    exprs, index = [], []          # model expressions and where they belong
+    exprs, index = [], []
     nviol = 0
+    fd = ctx.finding(FID61)
+    if fd is not None and isinstance(fd.get('witness'), dict):
+        ctx.known_finding(FID61, still_fails=not replay(ctx, fd['witness'], quiet=True))
     for g, gres in zip(groups, impl):
-        for f, fres in zip(g['fields'], gres):
-            inputs = inputs_of(f)
-            ctx.hist('engine/kind', '%s/%s' % (f['engine'], f['kind']))
-            ctx.hist('variant', ('subclass ' if f['cls'] else '') + ('tz ' if f['tz'] else '') + (f['container'] or 'scalar')
-                     + (' %d patterns' % len(f['patterns']) if len(f['patterns']) > 1 else ''))
+        region61 = f61_fields(g)
+        for fi, (f, fres) in enumerate(zip(g['fields'], gres)):
+            ctx.hist('engine/style', '%s/%s' % (f['engine'], f['style']))
+            kinds = sorted({l[1] for l in leaves_of(f['tree'])})
+            ctx.hist('leaf_kinds', '+'.join(kinds))
+            ctx.hist('variant', ('tz ' if f['tz'] else '') + ('%d patterns' % len(f['patterns'])))
+            for nd in nodes_of(f['tree'], set()):
+                ctx.hist('position', nd)
+            ctx.hist('depth', depth_of(f['tree']))
             for p_, info in zip(f['patterns'], f['infos']):
                 for d in info:
                     ctx.hist('directive', d)
                 ctx.hist('dash_or_plus', ('-' in p_) or ('+' in p_))
-            for i, (inp, res) in enumerate(zip(inputs, fres)):
-                ctx.count(1, key='%s|%s|%s' % (f['engine'], f['ann'], json.dumps(inp, sort_keys=True)), nontrivial=nontrivial(f))
+            for it, res in zip(f['items'], fres):
+                ctx.count(1, key='%s|%s|%s' % (f['engine'], f['ann'], json.dumps(it['inp'], sort_keys=True)), nontrivial=nontrivial(f))
                 if res.get('load', {}).get('phase') == 'class':
-                    ctx.violation('class with patterned field cannot be created: %s' % res['load'].get('msg', '')[:200],
-                                  replay_obj(f, inp, 'class'))
-                    continue
-                ss = elems(inp)
-                # ---- direct predicates ----
-                bad = None
-                if f['container'] is None:
-                    it = f['items'][i]
-                    ctx.hist('input', it['why'])
-                    bad = check_scalar(ctx, f, it, res)
-                    region = in_f26_region(f, inp)
-                else:
-                    region = any(in_f26_region(f, s) for s in ss)
-                    bad = check_container(ctx, f, inp, ss, res)
-                if region:
-                    ctx.hist('f26_shape_covered', f['container'] or 'scalar')
-                if bad:
                     if nviol < 8:
                         nviol += 1
-                        ctx.violation('%s engine, %s: %s' % (f['engine'], f['ann'], bad), replay_obj(f, inp, bad))
+                        ctx.violation('class with patterned fields cannot be created: %s: %s' % (res['load'].get('err'), res['load'].get('msg', '')[:300]),
+                                      replay_obj(g, fi, it, 'class'))
+                    continue
+                for m in it['meta'].values():
+                    ctx.hist('leaf_input', m['why'])
+                known61 = fi in region61 and ctx.is_open_region(FID61)
+                bad = check_input(ctx, f, it, res)
+                if fi in region61:
+                    ctx.hist('f61_shape_covered', 'fails' if bad else 'ok')
+                    if bad and ctx.is_open_region(FID61):
+                        ctx.hist('known_region', FID61)
+                        bad = None
+                if bad and nviol < 8:
+                    nviol += 1
+                    ctx.violation('%s engine, field %s: %s' % (f['engine'], f['ann'], bad), replay_obj(g, fi, it, bad))
                 # ---- model expressions: the input, and the dump of its load ----
-                exprs.append(model_expr(f, ss, f['container']))
-                index.append((f, inp, res['load'], 'load'))
-                if 'ok' in res['load'] and res['load']['ok'] is not None and 'again' in res and res.get('dump') is not None:
+                exprs.append(model_expr(f, it['inp']))
+                o = res['load']
+                if 'ok' in o:
+                    o = {'ok': norm_obs(f['tree'], it['inp'], o['ok'])}
+                index.append((f, it['inp'], o, 'load', known61))
+                if 'ok' in res['load'] and res['load']['ok'] is not None and 'ok' in res.get('again', {}) and res.get('dump') is not None:
                     try:
-                        ds = elems(res['dump'])
-                        if all(isinstance(x, str) for x in ds):
-                            exprs.append(model_expr(f, ds, f['container']))
-                            index.append((f, res['dump'], res['again'], 'reload'))
+                        e2 = model_expr(f, res['dump'])
+                        exprs.append(e2)
+                        index.append((f, res['dump'], {'ok': norm_obs(f['tree'], res['dump'], res['again']['ok'])}, 'reload', known61))
                     except Exception:
-                        pass
+                        ctx.hist('reload_not_modelled', f['style'])
     # ---- correspondence ----
     try:
         model = coq_retry(ctx, exprs, ['PatModel'], prelude=PRELUDE)
@@ -613,47 +1279,24 @@ def run(ctx):
         model = None
     if model is not None:
         nd = 0
-        for (f, inp, o, phase), m in zip(index, model):
+        for (f, inp, o, phase, known), m in zip(index, model):
             ctx.traces_validated += 1
-            got = impl_txt(f, o, f['container'])
+            got = impl_txt(f, o)
             ctx.hist('outcome', got[:1])
-            if got != m:
+            if got != m and known:
+                ctx.hist('known_region_model', FID61)
+            elif got != m:
                 nd += 1
                 ctx.disagreements_checked += 1
                 if nd <= 5:
                     ctx.broken_tie('Pattern model and implementation disagree (%s engine, %s, %s)' % (f['engine'], f['ann'], phase),
                                    {'input': inp, 'impl': got, 'model': m, 'patterns': f['patterns']})
-    g0 = groups[0]['fields'][0]
-    ctx.sample({'annotation': g0['ann'], 'inputs': inputs_of(g0), 'observed': impl[0][0]})
-    g1 = groups[-1]['fields'][0]
-    ctx.sample({'annotation': g1['ann'], 'engine': 'v1', 'inputs': inputs_of(g1), 'observed': impl[-1][0]})
-
-
-def check_container(ctx, f, inp, ss, res):
-    """P7: element-wise; one bad element rejects the whole container"""
-    cn = cls_name(f)
-    exp = []
-    for s in ss:
-        pr, ir = pattern_reading(f, s), iso_reading(f, s)
-        acc = [canon_py(x, cn) for x in (pr, ir) if x is not None]
-        exp.append(acc)
-    load = res['load']
-    if any(not a for a in exp):
-        if not load.get('parse_error'):
-            return 'P7/P4: container with a junk element %r not rejected with ParseError: %r' % (inp, load)
-        return None
-    if 'ok' not in load:
-        return 'P7: container %r rejected: %r' % (inp, load)
-    v = load['ok']
-    xs = v.get('list') if 'list' in v else ([x[1] for x in v.get('dict', [])] if 'dict' in v else None)
-    if xs is None or len(xs) != len(ss) or any(x not in a for x, a in zip(xs, exp)):
-        return 'P7: container %r loaded as %r, expected element-wise %r' % (inp, v, [a[0] for a in exp])
-    if 'dict' in v and [x[0] for x in v['dict']] != list(inp):
-        return 'P7: dict keys changed: %r' % (v,)
-    if not res.get('again_equal'):
-        return 'P2: load(dump(load(%r))) differs (dump %r, again %r)' % (inp, res.get('dump'), res.get('again'))
-    return None
-
+    g0 = groups[0]
+    ctx.sample({'class_header': g0['header'][:600], 'annotations': [f['ann'] for f in g0['fields']][:4]})
+    f0 = g0['fields'][0]
+    ctx.sample({'annotation': f0['ann'], 'inputs': [it['inp'] for it in f0['items']], 'observed': impl[0][0]})
+    f1 = groups[-1]['fields'][0]
+    ctx.sample({'annotation': f1['ann'], 'engine': 'v1', 'inputs': [it['inp'] for it in f1['items']], 'observed': impl[-1][0]})
 
 
 def replay_demo(ctx, obj):
@@ -673,24 +1316,21 @@ def replay_demo(ctx, obj):
 def replay(ctx, obj, quiet=False):
     if 'finding' in obj:
         return replay_demo(ctx, obj)
-    if obj.get('kind') != 'field':
+    if obj.get('kind') != 'group':
         print('replay object names a broken tie, not an input: %s' % json.dumps(obj)[:1500])
         return False
+    i = obj['index']
+    fields = [{'ann': a, 'inputs': [obj['input']] if j == i else []} for j, a in enumerate(obj['anns'])]
+    res = ctx.impl('c17', {'groups': [{'engine': obj['engine'], 'header': obj['header'], 'fields': fields}]})['groups'][0][i][0]
     f = obj['field']
-    res = ctx.impl('c17', {'groups': [{'engine': f['engine'], 'fields': [{'ann': f['ann'], 'inputs': [obj['input']]}]}]})['groups'][0][0][0]
-    ss = elems(obj['input'])
-    good = all(pattern_reading(f, s) is not None or iso_reading(f, s) is not None for s in ss)
+    bad = check_input(None, f, {'inp': obj['input'], 'meta': obj['meta']}, res)
     if not quiet:
-        print('engine %s   f: %s   input %r' % (f['engine'], f['ann'], obj['input']))
+        print(obj['header'])
+        print('@dataclass\nclass C:')
+        for j, a in enumerate(obj['anns']):
+            print('    f%d: %s = None' % (j, a))
+        print('engine %s   field f%d   input %s' % (obj['engine'], i, json.dumps(obj['input'])))
         print('recorded failure:', obj.get('what'))
-        print('observed now    :', json.dumps(res)[:1200])
-    load = res['load']
-    if not good:
-        return bool(load.get('parse_error')) and all(p in load.get('msg', '') for p in f['patterns'])
-    if 'ok' not in load:
-        return False
-    cn = cls_name(f)
-    if f['container'] is None:
-        acc = [canon_py(x, cn) for x in (pattern_reading(f, ss[0]), iso_reading(f, ss[0])) if x is not None]
-        return load['ok'] in acc and bool(res.get('again_equal'))
-    return check_container(ctx, f, obj['input'], ss, res) is None
+        print('observed now    :', json.dumps(res)[:1500])
+        print('verdict now     :', bad or 'all direct predicates hold')
+    return bad is None
